@@ -122,7 +122,6 @@ pub fn default_guards() -> Vec<String> {
         "delete_of_updated_row_in_multi_statement_txn", // D25
         "unique_key_reuse_while_session_open",   // U2
         "arithmetic_update_on_indexed_table",    // D24
-        "statement_in_session_after_vacuum_aborted_it", // V1
         "create_index_inside_session",           // X1
         "alter_drop_column",                     // D17, D17b
         "alter_add_column",                      // D16
@@ -1039,6 +1038,18 @@ impl Gen {
                 let open: Vec<u32> = self.sess.keys().copied().collect();
                 for k in open {
                     self.must_commit.remove(&k);
+                    if !self.p.has("statement_in_session_after_vacuum_aborted_it") && self.rng.chance(60) {
+                        // the client has not noticed yet and goes on: whatever is answered, nothing of
+                        // it may ever be seen by anybody (finding V1, repaired)
+                        for _ in 0..self.rng.range(1, 2) {
+                            let t = self.model.begin();
+                            let s = if self.rng.chance(30) { self.gen_read(t) } else { self.gen_write(t, None) };
+                            self.model.abort(t);
+                            if let Some(s) = s {
+                                self.events.push(Event::Exec(k, s));
+                            }
+                        }
+                    }
                     self.end_session(k);
                 }
                 self.emit(Event::Check);
